@@ -923,3 +923,23 @@ def fam_indirect_goals():
                           dict(name="B", items=recs("B", ctxs) + [("go", "A", [("cmpi", "v", op, "g.x", tol, not neg)])])]
                 yield ("indirect/%s/tol%s/neg%d" % (op, tol, neg),
                        dict(tick=0.125, inits=[("v", 1), ("g.x", 2)], framers=[dict(name="m", schedule="active", frames=frames)]), dict())
+
+
+def fam_guarded_start():
+    """controller m readies / starts / runs a second framer w whose FIRST frame (or the frame under it) is guarded by
+    e1, from frames entered on e0: the guard may flip between `ready` and `start`, so every start attempt must
+    re-check it at the moment of the attempt; w is inactive or active, declared before or after m."""
+    ctxs = ("benter", "enter", "exit", "recur")
+    for first in ("ready", "start", "run"):
+        for second in ("start", "run", "ready", "stop"):
+            for wsched in ("inactive", "active"):
+                for decl in ("mw", "wm"):
+                    for gpos in ("first", "under"):
+                        a = recs("A", ctxs[1:]) + [("bid", "enter", first, ["w"], None), ("go", "B", [E0])]
+                        b = recs("B", ctxs[1:]) + [("bid", "enter", second, ["w"], None), ("go", "A", [E0])]
+                        m = dict(name="m", schedule="active", frames=[dict(name="A", items=a), dict(name="B", items=b)])
+                        w0 = ([("let", [E1])] if gpos == "first" else []) + recs("w0", ctxs)
+                        w1 = ([("let", [E1])] if gpos == "under" else []) + recs("w1", ctxs)
+                        w = dict(name="w", schedule=wsched, frames=[dict(name="w0", items=w0), dict(name="w1", over="w0", items=w1)])
+                        yield ("guarded-start/%s-%s/%s/%s/%s" % (first, second, wsched, decl, gpos),
+                               dict(tick=0.125, inits=list(ENV_INITS), framers=[m, w] if decl == "mw" else [w, m]), dict(parents=None))
